@@ -195,3 +195,14 @@ Definition near_tie (data : list Q) (Vc : mat qx) (l j : nat) : bool :=
     let n_close := length (filter close (seq 1 (l - 1))) in
     2 <=? n_close
   end.
+
+(* ---------- "sorted with at least k distinct values" (what _run_natural_break checks before it calls
+   _run_jenks: data.sort() and len(np.unique(data)) >= k), for the precondition of the back-tracking theorem ---------- *)
+(* position p (1 <= p < n) is an ascent: data[p-1] < data[p] *)
+Definition ascb (data : list Q) (p : nat) : bool :=
+  negb (Qle_bool (nth p data 0%Q) (nth (p - 1) data 0%Q)).
+Definition nasc (data : list Q) (ps : list nat) : nat := length (filter (ascb data) ps).
+(* number of distinct values among the first l points of an ascending list, l >= 1 *)
+Definition distinct_upto (data : list Q) (l : nat) : nat := S (nasc data (seq 1 (l - 1))).
+Definition sortedQ (data : list Q) : Prop :=
+  forall p, 1 <= p < length data -> (nth (p - 1) data 0 <= nth p data 0)%Q.
